@@ -4,6 +4,6 @@ From CV Require Import C03.UsesC05.
 Extraction Language OCaml.
 Extraction "model.ml" mkNumOps nhalf
   mkMachine mkMod run_from run state_file resume go_on pair_machine cascade_machine list_machine
-  mkRSaved restraint_machine mkHCfg histogram_machine mkACfg abmd_machine
+  mkRSaved restraint_machine mkHCfg histogram_machine mkACfg abmd_machine mkAlbCfg alb_machine
   mkHRCfg histrestraint_machine mkXCfg mkXSt mkXIn extlag_machine bin_value x_fsys mkMCfg module_machine
   abf_machine eabf_machine meta_machine.
